@@ -354,6 +354,38 @@ def run(ctx: Ctx):
         ctx.count("altitude-scan-same-simulation-section")
     for c in cfgs:
         pointwise(ctx, c, nev)
+    # ---- one configuration object re-used for several geometries (its altitude set in turn, the geometries evaluated afterwards):
+    # whichever altitude an object goes by — the one at construction or the one in force at the call — its normalisation
+    # constant and its events must go by the SAME one
+    import nuspacesim as nss
+    from nuspacesim.simulation.geometry.region_geometry import RegionGeom
+    shared = nss.NssConfig()
+    objs = []
+    for alt_ in (33.0, 525.0, 1000.0, 600.0):
+        shared.detector.initial_position.altitude = alt_
+        objs.append((alt_, RegionGeom(shared)))
+    last_alt = 600.0
+    u_s = rng.uniform(0.05, 0.95, (4, 24))
+    limb_, cone_, azi_ = float(shared.simulation.angle_from_limb), float(shared.simulation.max_cherenkov_angle), float(shared.simulation.max_azimuth_angle)
+    iL, iC = EV_FIELDS.index("losPathLen"), EV_FIELDS.index("costhetaNSubV")
+    for alt_, g_ in objs:
+        g_.throw(u_s.copy())
+        code_L, code_c = np.asarray(g_.losPathLen, dtype=np.float64), np.asarray(g_.costhetaNSubV, dtype=np.float64)
+        verdict = {}
+        for tag, a_ in (("altitude at construction", alt_), ("altitude in force at the call", last_alt)):
+            hexc = fh((a_, 0.0, 0.0, limb_, cone_, azi_))
+            m_ = dict(zip(CONST_FIELDS, [h2f(x) for x in run_driver([f"geoinit {hexc}"])[0]]))
+            ev_ = np.array([parse_event(o)[0] for o in run_driver([f"geothrow {hexc} {fh(u_s[:, i])}" for i in range(u_s.shape[1])])])
+            verdict[tag] = (bool(np.allclose(ev_[:, iL], code_L, rtol=1e-9, atol=0) and np.allclose(ev_[:, iC], code_c, rtol=1e-7, atol=1e-12)),
+                            bool(close(m_["mcnorm"], g_.mcnorm, 1e-9)))
+        ctx.case(("shared-config", alt_), None)
+        ctx.count("shared_config_objects")
+        if not any(ev_ok and norm_ok for ev_ok, norm_ok in verdict.values()):
+            ctx.violation("RegionGeom", "events-and-normalisation-go-by-different-altitudes",
+                          "a geometry built from a configuration object whose altitude was changed afterwards throws its events for one altitude and normalises them for another",
+                          {"altitude_at_construction": alt_, "altitude_in_force_at_the_call": last_alt,
+                           "events_match / mcnorm_matches": {k_: list(v_) for k_, v_ in verdict.items()}, "mcnorm": float(g_.mcnorm), "losPathLen_head": code_L[:3].tolist()})
+            break
     # ---- quadrature
     if ctx.thorough:
         grid = [(a, np.radians(l), np.radians(cn), np.radians(az)) for a in (5.0, 33.0, 525.0, 1000.0, 36000.0) for l in (1.0, 7.0, 20.0)
